@@ -10,7 +10,7 @@ from checks import gb_src43 as S
 META = {
     "engine": "gen", "level": "exploration", "design_ref": "DESIGN.md §4.4 C43",
     "technique": "the generator's own runtime monitor: brick configurations harvested from the repository's test behaviours are regenerated with @CompareToNumericalJacobian (+ perturbation and criterion) and mfront --debug, driven along strain paths in a worker process whose stdout (mismatch blocks, Newton iteration reports) is captured and parsed",
-    "text": "Every StandardElastoViscoPlasticity / StandardElasticity / DDIF2 brick file of mfront/tests/behaviours that uses an analytical jacobian is a configuration (stress potential x criterion x flow x isotropic/kinematic hardening x porosity nucleation). Quick: a greedy pairwise-covering sample of 8 configurations; thorough: all of them. Each is regenerated with the comparison keywords injected (hypotheses Tridimensional, PlaneStress, AxisymmetricalGeneralisedPlaneStress when the file supports all), compiled and driven along three strain paths (tension with partial unloading, shear, triaxial tension; about 30 steps each, elastic then inelastic). The behaviour compares its analytical jacobian blocks with centred finite differences at every Newton iterate and prints a block when they differ by more than its criterion: zero such blocks are expected. A first pass with the criterion set to 0 at run time makes every compared block visible (evidence: iterates and blocks really compared, largest difference per configuration). Judged: the comparison made at the converged state of every step (all calls request the consistent tangent operator), for blocks whose column unknown moved by more than 100 perturbations, relatively to the largest entry of the block when it exceeds 1, and only when the difference is the same (factor 2) with perturbations x10 and /10 (finite-difference truncation scales with the square of the perturbation, a wrong analytical term does not). Intermediate iterates (unknowns not observable: kinks at zero increments, status switches, frozen porosity of the staggered scheme) are counted, not judged.",
+    "text": "Every StandardElastoViscoPlasticity / StandardElasticity / DDIF2 brick file of mfront/tests/behaviours that uses an analytical jacobian is a configuration (stress potential x criterion x flow x isotropic/kinematic hardening x porosity nucleation). Quick: a greedy pairwise-covering sample of 9 configurations; thorough: all of them. Each is regenerated with the comparison keywords injected (hypotheses Tridimensional, PlaneStress, AxisymmetricalGeneralisedPlaneStress when the file supports all), compiled and driven along three strain paths (tension with partial unloading, shear, triaxial tension; about 30 steps each, elastic then inelastic). The behaviour compares its analytical jacobian blocks with centred finite differences at every Newton iterate and prints a block when they differ by more than its criterion: zero such blocks are expected. A first pass with the criterion set to 0 at run time makes every compared block visible (evidence: iterates and blocks really compared, largest difference per configuration). Judged: the comparison made at the converged state of every step (all calls request the consistent tangent operator), for blocks whose column unknown moved by more than 100 perturbations, relatively to the largest entry of the block when it exceeds 1, and only when the difference is the same (factor 2) with perturbations x10 and /10 (finite-difference truncation scales with the square of the perturbation, a wrong analytical term does not). Intermediate iterates (unknowns not observable: kinks at zero increments, status switches, frozen porosity of the staggered scheme) are counted, not judged.",
     "note": "Trusted: the comparison code emitted by NonLinearSystemSolverBase::writeComparisonToNumericalJacobian and operator<< of the tensor types (only used to read back the differences). Criterion 1e-6 (absolute, times the block size as the generated code does), perturbation 1e-9 on strain-like unknowns. Configurations needing unknown material properties or external files that are not found are skipped and listed.",
 }
 
@@ -172,7 +172,11 @@ def drive(ctx, s, lib, criterion, perturbation, nsteps, loadings=None, tag="c43"
 def select(ctx):
     cfgs = S.harvest()
     if not ctx.thorough:
-        cfgs = S.pairwise_sample(cfgs, 8, seed=0)
+        # 9 configurations: a greedy pairwise-covering sample seeded with one configuration of each family that adds a
+        # kind of equation of its own (orthotropic Hooke potential alone in plane stress, user defined flow with explicit
+        # strain hardening, strain-based nucleation)
+        cfgs = S.pairwise_sample(cfgs, 9, seed=0, forced=("Test5", "UserDefinedViscoplasticityTest3",
+                                                          "ChuNeedleman1980StrainBasedNucleationModelTest"))
     only = os.environ.get("VF_C43_ONLY")  # debugging / replay aid: comma separated configuration names
     if only:
         cfgs = [c for c in S.harvest() if c["name"] in only.split(",")]
@@ -196,6 +200,8 @@ def build(ctx):
     for s, lib, log, orig_ok, log0 in vfcore.pmap(one, specs, workers=min(8, max(2, vfcore.NCPU // 2))):
         if lib is not None:
             libs[s["name"]] = str(lib)
+        elif gbx.tool_could_not_start(log) or gbx.tool_could_not_start(log0):
+            raise vfcore.HarnessFailure("mfront could not start (build tree being relinked?): %s" % (log + log0)[-800:])
         elif orig_ok:
             ctx.violation("%s:does-not-build-with-comparison" % s["name"],
                           "the file builds unmodified but not with @CompareToNumericalJacobian injected:\n%s" % log[-3000:],
